@@ -37,6 +37,8 @@ class InjectedValidatorFault(ValueError):
 
 
 class Ctx(object):
+    known_keys = None
+
     def __init__(self):
         self.reset({})
 
@@ -55,6 +57,7 @@ class Ctx(object):
         self.faults = {}
         self.probes = {}
         self.urlopen_calls = 0
+        self.known_hits = {}
 
     def fault(self, kind, n=1):
         self.faults[kind] = self.faults.get(kind, 0) + n
